@@ -249,49 +249,44 @@ Theorem table_iter_total : forall dbg hb h, asz_ok (h_asz h) ->
   tbl_all dbg hb h <> Panic /\ tbl_all dbg hb h <> OutOfFuel.
 Proof. exact tbl_all_safe_lem. Qed.
 
-(* EhHdrTable::lookup terminates on every table (sorted or not) within log2(fde_count)+1 steps
-   and cannot panic unless `(len / 2) * row_size` overflows u64 ... *)
-Theorem lookup_total : forall dbg hb h a,
-  asz_ok (h_asz h) -> ~ mul_overflows h ->
-  hdr_lookup dbg hb h a <> Panic /\ hdr_lookup dbg hb h a <> OutOfFuel.
-Proof. exact hdr_lookup_no_panic_lem. Qed.
+(* after a row that fails to parse the iterator is exhausted: the next call returns None *)
+Theorem table_iter_stops_after_error : forall dbg hb h st e st',
+  tbl_next dbg hb h st = Ok (SErr e, st') -> tbl_next dbg hb h st' = Ok (SNone, st').
+Proof. exact tbl_next_stops. Qed.
 
-(* ... which does happen in checked builds: known finding (fde_count = 2^63, 16-byte rows) *)
-Theorem lookup_no_panic_refuted :
-  exists h, hdr_parse true false no_bases 8 mul_witness = Ok h /\ hdr_table h = Some h /\
-            hdr_lookup true no_bases h 5 = Panic /\ hdr_lookup false no_bases h 5 <> Panic.
+Theorem table_nth_total : forall dbg hb h n, asz_ok (h_asz h) ->
+  tbl_nth dbg hb h n <> Panic /\ tbl_nth dbg hb h n <> OutOfFuel.
+Proof. exact tbl_nth_safe_lem. Qed.
+
+(* EhHdrTable::lookup returns within log2(fde_count)+1 steps on EVERY table (sorted or not,
+   any fde_count, any bytes) and never panics *)
+Theorem lookup_total : forall dbg hb h a, asz_ok (h_asz h) ->
+  hdr_lookup dbg hb h a <> Panic /\ hdr_lookup dbg hb h a <> OutOfFuel.
+Proof. exact hdr_lookup_safe_lem. Qed.
+
+(* the whole header path (lookup, pointer_to_offset, fde_from_offset, contains): total on every
+   header, table, section and address, both build modes *)
+Theorem hdr_fde_for_address_total : forall dbg hb h c sec a,
+  asz_ok (h_asz h) -> asz_ok (sc_asz c) ->
+  hdr_fde_for_address dbg hb h c sec a <> Panic /\ hdr_fde_for_address dbg hb h c sec a <> OutOfFuel.
+Proof. exact hdr_fde_for_address_safe_lem. Qed.
+
+(* the two inputs that used to overflow (fixed in c0bb189 / f378977) are plain errors now:
+   fde_count = 2^63 with 16-byte rows, and a table address below eh_frame_ptr *)
+Theorem extreme_fde_count_is_an_error : forall dbg,
+  exists h, hdr_parse dbg false no_bases 8 mul_witness = Ok h /\ hdr_table h = Some h /\
+            hdr_lookup dbg no_bases h 5 = Err EUnexpectedEof.
 Proof. exact lookup_mul_overflow_witness. Qed.
 
-(* the whole header path, outside the two known classes *)
-Theorem hdr_fde_for_address_total : forall dbg hb h c sec a,
-  asz_ok (h_asz h) -> asz_ok (sc_asz c) -> ~ mul_overflows h ->
-  (forall p, hdr_lookup dbg hb h a = Ok p -> ~ ptr_below_section h p) ->
-  hdr_fde_for_address dbg hb h c sec a <> Panic /\ hdr_fde_for_address dbg hb h c sec a <> OutOfFuel.
-Proof. exact hdr_fde_for_address_no_panic_lem. Qed.
-
-(* known finding S1: a table address below eh_frame_ptr makes `ptr - eh_frame_ptr` underflow *)
-Theorem pointer_to_offset_no_panic_refuted :
-  exists h p, hdr_parse true false no_bases 8 s1_witness = Ok h /\
-              hdr_lookup true no_bases h 32 = Ok p /\
-              pointer_to_offset true h p = Panic /\
-              hdr_fde_for_address true no_bases h (mkcfg true false 8 no_bases) [] 32 = Panic.
+Theorem address_below_section_is_an_error : forall dbg,
+  exists h p, hdr_parse dbg false no_bases 8 s1_witness = Ok h /\
+              hdr_lookup dbg no_bases h 32 = Ok p /\
+              pointer_to_offset dbg h p = Err EOffsetOutOfBounds /\
+              hdr_fde_for_address dbg no_bases h (mkcfg true false 8 no_bases) [] 32 = Err EOffsetOutOfBounds.
 Proof. exact pointer_to_offset_underflow_witness. Qed.
 
-(* release builds: total on every header, table, section and address *)
-Theorem hdr_fde_for_address_release_total : forall hb h c sec a,
-  asz_ok (h_asz h) -> asz_ok (sc_asz c) ->
-  hdr_fde_for_address false hb h c sec a <> Panic /\ hdr_fde_for_address false hb h c sec a <> OutOfFuel.
-Proof. exact hdr_fde_for_address_release_safe. Qed.
-
-Example total_hypotheses_instance :
-  asz_ok (sc_asz ex_cfg) /\ asz_ok (h_asz ex_hdr) /\ ~ mul_overflows ex_hdr /\
-  (forall p, hdr_lookup true no_bases ex_hdr 600 = Ok p -> ~ ptr_below_section ex_hdr p).
-Proof.
-  split; [right; right; right; reflexivity|]. split; [right; right; right; reflexivity|]. split.
-  - intros (size & Hs & Hm). vm_compute in Hs. injection Hs as <-. vm_compute in Hm. apply Hm. reflexivity.
-  - intros p Hp (x & e & Hx & He & Hlt). vm_compute in Hp. injection Hp as <-. injection Hx as <-.
-    vm_compute in He. injection He as <-. vm_compute in Hlt. discriminate.
-Qed.
+Example total_hypotheses_instance : asz_ok (sc_asz ex_cfg) /\ asz_ok (h_asz ex_hdr).
+Proof. split; right; right; right; reflexivity. Qed.
 
 (* statement pins *)
 Check eh_pe_valid_all : forall e, e < 256 -> pe_is_valid e = valid_spec e.
